@@ -397,14 +397,18 @@ fn build(d: &mut Dice) -> GenCase {
         let mut vtexts = vec![];
         for (vi, c, _, _, _) in &variants {
             let mut attrs = c.attrs.clone();
-            // the docs show `bound(..)` on the item ("in the struct/enum definition"): for enums it goes on the enum
-            {
+            // the docs show `bound(..)` on the item ("in the struct/enum definition"): for enums it goes on the enum;
+            // the Display-like derives also take it on a variant (their attribute grammar is the same for struct and variant)
+            let has_bound = attrs.iter().any(|a| a.contains("(bound(") || a.contains("(bounds("));
+            if is_debug || d.chance(60) {
                 let (b, rest): (Vec<String>, Vec<String>) = attrs.into_iter().partition(|a| a.contains("(bound(") || a.contains("(bounds("));
                 attrs = rest;
                 if !b.is_empty() {
                     labels.push("enum_level_bound".into());
                 }
                 enum_attrs.extend(b);
+            } else if has_bound {
+                labels.push("variant_level_bound".into());
             }
             let fields = if c.fields.is_empty() { String::new() } else { render_fields(c, false) };
             vtexts.push(format!("    {} V{vi}{fields}", attrs.join(" ")));
